@@ -25,10 +25,13 @@ def one(d):
             if r.returncode:
                 return d, own, None, "patch does not apply: " + r.stderr[:200]
         res = {}
-        for pid in armed:
+        order = [own] + [p for p in armed if p != own]
+        for pid in order:
             o = subprocess.run([f'{H}/check', pid, '--root', tmp, '--no-evidence'], capture_output=True, text=True, cwd=H)
             lines = [l for l in o.stdout.splitlines() if l.startswith(('FAIL', 'ANALYSIS-ERROR'))]
             res[pid] = (o.returncode, lines)
+            if os.environ.get("OWN_FIRST") and pid == own and o.returncode == 1:
+                break
         return d, own, res, None
     finally:
         shutil.rmtree(tmp, ignore_errors=True)
